@@ -45,10 +45,14 @@ def strategy(tp):
     zero = st.fixed_dictionaries({"kind": st.just("zero"), "a": st.integers(0, 95), "what": st.sampled_from(["header", "slot"])})
     trunc = st.fixed_dictionaries({"kind": st.just("truncate"), "a": st.integers(0, 95), "off": st.sampled_from([0, 1, 39, 40, 41, 2000, 4095])})
     hdr = st.fixed_dictionaries({"kind": st.just("dbheader"), "fill": st.sampled_from([0, 255, 90]), "n": st.sampled_from([8, 64, 4096, 16384])})
-    mut = st.one_of(field, field, field, dup, dup, swap, zero, trunc, hdr)
+    link = st.fixed_dictionaries({
+        "kind": st.just("field"), "a": st.integers(0, 95), "field": st.sampled_from(["next", "first"]),
+        "src": st.sampled_from(["slot", "slot", "const"]), "b": st.integers(0, 95), "c": st.integers(0, 11)})
+    # chain-link and duplication mutations first and most often: only a few scenarios fit into a quick run
+    mut = st.one_of(link, dup, field, swap, link, dup, field, zero, trunc, hdr)
     return st.fixed_dictionaries({
         "base": st.integers(0, len(BASES) - 1),
-        "muts": st.lists(mut, min_size=1, max_size=5),
+        "muts": st.lists(mut, min_size=2, max_size=6),
         "new_stores": st.lists(st.sampled_from([100, 5000, 13000, 30000]), min_size=0, max_size=4),
     })
 
@@ -301,7 +305,7 @@ def classify(db, url):
     return "other"
 
 
-def _probe_all(env, port, content, nurls, r, stage, extra=None, db=None):
+def _probe_all(env, port, content, nurls, r, stage, extra=None, db=None, sizes_mutated=False):
     hits = 0
     for u in range(nurls):
         m = ds.oic(env, port, content.path(u), url=content.url(u))
@@ -315,10 +319,16 @@ def _probe_all(env, port, content, nurls, r, stage, extra=None, db=None):
             hits += 1
             continue
         served = content.served_versions(u)
-        if not m.complete and any(content.body(u, v).startswith(m.body) for v in served):
-            r.label("hit-truncated-with-correct-prefix")
-            continue
         cls = classify(db, content.url(u)) if db is not None else "other"
+        if sizes_mutated and cls == "other":
+            # payloadSize/entrySize were rewritten: that cuts or extends the payload the slot contributes, i.e. it changes
+            # payload bytes, which the generator otherwise never does; differing bytes are then not judged (counted)
+            r.label("bytes-differ-after-size-field-mutation")
+            continue
+        if not m.complete and any(content.body(u, v).startswith(m.body) for v in served):
+            # an entry was made readable whose stored bytes do not add up to the response it announces
+            r.fail("hit-truncated:" + stage, "%s: u%d: only-if-cached 200 delivered only %d body bytes (a correct prefix) and ended early%s" % (stage, u, len(m.body), extra or ""))
+            continue
         r.fail("hit-is-not-a-complete-origin-version:" + (cls if cls != "other" else "other:" + stage),
                "%s: u%d: only-if-cached 200 with %d body bytes (complete=%s) equal to none of the versions the origin served for this URL (sizes %s)%s" % (
                    stage, u, len(m.body), m.complete, [content.size(u, v) for v in served], extra or ""))
@@ -359,7 +369,8 @@ def _run(env, sc, sq, r, base):
     port = sq.ports[0]
     n = base["urls"]
     r.sub_evaluations = n
-    hits = _probe_all(env, port, content, n, r, "after-rebuild", desc, db)
+    sizes_mutated = any(m["kind"] == "field" and m["field"] in ("payload_size", "entry_size") for m in sc["muts"])
+    hits = _probe_all(env, port, content, n, r, "after-rebuild", desc, db, sizes_mutated)
     # further stores take slots from the free list the rebuild produced; nothing served afterwards may change
     if sc["new_stores"] and not r.violations:
         extra = ds.Content(env, env.ns())
@@ -369,7 +380,7 @@ def _run(env, sc, sq, r, base):
             m = ds.get(env, port, extra.path(j))
             if ds.judged(m) and m.status == 200:
                 ds.wait_swapout(sq, url, 0, 2.0)
-        _probe_all(env, port, content, n, r, "after-new-stores", desc, db)
+        _probe_all(env, port, content, n, r, "after-new-stores", desc, db, sizes_mutated)
         for j in range(len(sc["new_stores"])):
             m = ds.oic(env, port, extra.path(j))
             if ds.judged(m) and m.status == 200 and (not m.complete or extra.match_version(j, m.body) is None):
